@@ -152,8 +152,11 @@ func mixed(w []bool, nb int) bool {
 	return n && s
 }
 
+// source kind for the malformed stream: *os.File is left out because a rewritten DataOffset can
+// ask for a seek the file system refuses (EINVAL beyond its maximum file size), which no
+// in-memory source does; kind 4 has the same method set as far as go-car looks.
 func srcKind(r *RNG) (uint64, int) {
-	k := uint64(r.Intn(5))
+	k := pick(r, []uint64{0, 2, 2, 3, 4})
 	chunk := 0
 	if k == 2 {
 		chunk = pick(r, []int{0, 1, 3, 7, 4096})
@@ -174,18 +177,21 @@ func init() {
 
 			// ---- valid archive x choice strings x source kinds
 			var ws [][]bool
-			if small || c.Thorough && nb <= 6 {
+			hasBig := len(a.file) > 1<<20
+			exhaustive := small || len(a.file) <= 2048 || (c.Thorough && len(a.file) <= 8192)
+			if exhaustive {
 				ws = allChoices(nb + 1) // one more call than there are blocks: the end is part of it
 				c.Count("choices:exhaustive")
 			} else {
-				ws = [][]bool{randChoices(r, nb+1), randChoices(r, nb+1), randChoices(r, nb+2), randChoices(r, nb)}
-				all := make([]bool, nb+1)
-				ws = append(ws, all, randChoices(r, nb+1))
+				ws = [][]bool{randChoices(r, nb+1), randChoices(r, nb+2), make([]bool, nb+1)}
+				if !hasBig {
+					ws = append(ws, randChoices(r, nb+1), randChoices(r, nb), randChoices(r, nb+1))
+				}
 				c.Count("choices:random")
 			}
 			for _, w := range ws {
 				for kind := uint64(0); kind < 5; kind++ {
-					if !small && !c.Thorough && r.Intn(5) > 1 {
+					if !exhaustive && (hasBig || !c.Thorough) && r.Intn(5) > 1 {
 						continue
 					}
 					chunk := 0
@@ -202,16 +208,27 @@ func init() {
 
 			// ---- malformed stream (correspondence + the CARv2 consumption bound only)
 			none := VL{VT("none")}
-			emitM := func(f []byte, what string) {
+			emitX := func(f []byte, what string, expect Val) {
 				k, chunk := srcKind(r)
-				emitBrpos(c, k, chunk, o, f, randChoices(r, nb+2), none, false)
+				emitBrpos(c, k, chunk, o, f, randChoices(r, nb+2), expect, false)
 				c.Count("malformed:" + what)
+			}
+			emitM := func(f []byte, what string) { emitX(f, what, none) }
+			// every proper prefix; a cut is "inside" unless it falls on the end of the header or
+			// of a section (or, for CARv2, at/after the end of the payload)
+			boundary := map[int]bool{a.base + a.hdrLen: true}
+			pos := a.base + a.hdrLen
+			for _, b := range a.blks {
+				sl := b.Cid.ByteLen() + len(b.Data)
+				pos += uvarintLen(uint64(sl)) + sl
+				boundary[pos] = true
 			}
 			for k := 0; k < len(a.file); k++ {
 				if !c.Thorough && len(a.file) > 400 && r.Intn(len(a.file)/300+1) != 0 {
 					continue
 				}
-				emitM(a.file[:k], "truncated")
+				inside := !boundary[k] && k < a.base+len(a.payload)
+				emitX(a.file[:k], "truncated", VL{VT("trunc"), vbool(inside)})
 			}
 			for t := 0; t < 60; t++ {
 				g := append([]byte(nil), a.file...)
@@ -219,7 +236,7 @@ func init() {
 				emitM(g, "byte-flip")
 			}
 			// section length varints rewritten
-			pos := a.base + a.hdrLen
+			pos = a.base + a.hdrLen
 			for _, b := range a.blks {
 				sl := uint64(b.Cid.ByteLen() + len(b.Data))
 				vl := uvarintLen(sl)
